@@ -230,6 +230,10 @@ def c16(ctx):
     misc2.r_conv(ctx)
     live.r_alpha(ctx, [OP + 'dna_to_number', OP + 'number_to_dna'], floor=2)
     exc.r_typed_dispatch(ctx, ctx.reachable(), floor=5)
+    # the two paths of a conversion agree on the empty / zero input too: no path raises where the other returns (the only explicit
+    # error of the converters is the ValueError of the type dispatch, which typed call sites never reach)
+    for fn in ('bit_to_number', 'number_to_bit', 'dna_to_number', 'number_to_dna'):
+        exc.r_exc(ctx, OP + fn, {'ValueError'})
 
 
 def c18(ctx):
